@@ -82,8 +82,9 @@ Definition DUMP_DH_COMPRESSED : N := 39.   (* zlib | lzo | snappy | zstd *)
     raw data is read straight into the page buffer. *)
 Inductive dd_action := DdDecompress (srclen dstcap : N) | DdRaw.
 
-Definition dd_page (alim : N) (f : file) (ps flags size : N) (off : Z) : res dd_action :=
-  if negb (N.land flags DUMP_DH_COMPRESSED =? 0) then
+Definition dd_page (alim : N) (f : file) (flen ps flags size : N) (off : Z) : res dd_action :=
+  if negb (extent_ok flen off size) then Err KCORRUPT (StOther 30)     (* fix 92: "Page data extends beyond end of file" *)
+  else if negb (N.land flags DUMP_DH_COMPRESSED =? 0) then
     do _ <- get_chunk alim f size off;
     Ok (DdDecompress size ps)
   else if negb (size =? ps) then Err KCORRUPT (StPageSize size)
